@@ -3,8 +3,8 @@
    print one enumerator per flag with the value expression of Lang.EnumBody.flag_enumerators; (2) arithmetic of those
    expressions under C's declare-before-use rule. *)
 From Coq Require Import List String Ascii ZArith NArith Bool Arith.
-From PDV Require Import Lib.StrUtil Jinja.Tir Jinja.Interp Jinja.Static Gen.Templates Lang.EnumBody Lang.EnumBodyProofs
-                        Jinja.FragFlags Jinja.FragFlagsObjc Jinja.FragFlagsCli Jinja.FragEnums.
+From PDV Require Import Lib.StrUtil Lang.Comment Jinja.Tir Jinja.Interp Jinja.Static Gen.Templates Lang.EnumBody Lang.EnumBodyProofs
+                        Jinja.FragFlags Jinja.FragFlagsObjc Jinja.FragFlagsCli Jinja.FragEnums Jinja.LoopPure Jinja.FragEnums2 Jinja.CounterInit.
 Import ListNotations.
 Open Scope string_scope. Open Scope list_scope.
 
@@ -32,6 +32,49 @@ Print Assumptions C08_java_flags_render.
 Theorem C08_cpp_enum_render : forall il, exec cpp_cfg cpp_enum_loop (estate il) = (estate il, elines il).
 Proof. exact cpp_enum_loop_renders. Qed.
 Print Assumptions C08_cpp_enum_render.
+
+(* the render lemmas above start from counter 0: every render does - the template itself initialises the counter before the block,
+   and the only other assignment sits inside the flags loop (so the numbering of a type cannot depend on types rendered before it) *)
+Theorem C08_counter_starts_at_zero_in_every_render :
+  counter_disciplined t_cpp_header_flags_jinja2_hpp = true /\
+  counter_disciplined t_objc_header_flags_jinja2_h = true /\
+  counter_disciplined t_cppcli_header_flags_jinja2_hpp = true.
+Proof. exact flags_counters_start_at_zero. Qed.
+Print Assumptions C08_counter_starts_at_zero_in_every_render.
+
+(* the other three enum templates: one enumerator per item, in declaration order, never an initialiser - for EVERY item list *)
+Theorem C08_java_enum_render : forall tn il,
+  exec java_cfg java_enum_loop (e2state "java" tn il) = (e2state "java" tn il, plines java_enum_line il 0).
+Proof. exact java_enum_render. Qed.
+Print Assumptions C08_java_enum_render.
+
+Theorem C08_objc_enum_render : forall tn il,
+  exec objc_cfg objc_enum_loop (e2state "objc" tn il) = (e2state "objc" tn il, plines (objc_enum_line tn) il 0).
+Proof. exact objc_enum_render. Qed.
+Print Assumptions C08_objc_enum_render.
+
+Theorem C08_cppcli_enum_render : forall tn il,
+  exec cli_cfg cli_enum_loop (e2state "cppcli" tn il) = (e2state "cppcli" tn il, plines cli_enum_line il 0).
+Proof. exact cli_enum_render. Qed.
+Print Assumptions C08_cppcli_enum_render.
+
+(* the k-th printed chunk belongs to the k-th item and ends with its bare name (ObjC: type name + item name) *)
+Theorem C08_enum_kth_line : forall tn il k i, nth_error il k = Some i ->
+  (exists pre post c, plines java_enum_line il 0 = (pre ++ (c ++ "    " ++ e_name i ++ (if match skipn (S k) il with [] => true | _ => false end then ";" else ",") ++ String nl "") ++ post)%string) /\
+  (exists pre post c, plines (objc_enum_line tn) il 0 = (pre ++ (c ++ "    " ++ tn ++ e_name i ++ (if match skipn (S k) il with [] => true | _ => false end then "" else ",") ++ String nl "") ++ post)%string) /\
+  (exists pre post c, plines cli_enum_line il 0 = (pre ++ (c ++ "    " ++ e_name i ++ (if match skipn (S k) il with [] => true | _ => false end then "" else ",") ++ String nl "") ++ post)%string).
+Proof. exact enum_kth_line. Qed.
+Print Assumptions C08_enum_kth_line.
+
+Theorem C08_enum_loops_are_the_templates :
+  Slice.nth_for "items" 0 t_java_enum_jinja2_java = Some java_enum_loop /\
+  Slice.nth_for "items" 0 t_objc_header_enum_jinja2_h = Some objc_enum_loop /\
+  Slice.nth_for "items" 0 t_cppcli_header_enum_jinja2_hpp = Some cli_enum_loop /\
+  List.length (Slice.find_fors_in "items" t_java_enum_jinja2_java) = 1 /\
+  List.length (Slice.find_fors_in "items" t_objc_header_enum_jinja2_h) = 1 /\
+  List.length (Slice.find_fors_in "items" t_cppcli_header_enum_jinja2_hpp) = 1.
+Proof. vm_compute. repeat split; reflexivity. Qed.
+Print Assumptions C08_enum_loops_are_the_templates.
 
 (* (2) numbering *)
 Theorem C08_flag_bits : forall fl i f,
